@@ -21,7 +21,7 @@ import (
 func TestMain(m *testing.M) {
 	kit.Register("table-model", modelOracle)
 	kit.Register("table-soup", soupOracle)
-	kit.Describe("table-model: case = (safe configuration with the Table extension, a row model: optional paragraph lines, header row with h cells, delimiter row with d alignment cells, body rows with 1..2d cells, cells from inert words / emphasis / code spans / escaped pipes, leading and trailing pipes present or absent, optionally inside a block quote or list item) serialised to Markdown; oracle: h != d => no table at all; h == d => exactly one table, one thead with one tr of h th cells, every body row exactly h td cells, tbody iff there are body rows, every cell that was written in the source carries its column's alignment (per the pinned align method), and the AST has one TableHeader plus one TableRow per body row, each with len(Alignments) cells. table-soup: pipe/dash/colon soup; oracle: every table in the output is rectangular (one thead/tr, n >= 1 th, every body row n td, tbody iff rows) and every Table node has a header and rows of len(Alignments) cells. non-trivial = a table was produced and at least one body row had a cell count different from the header; distinct by hash of the case",
+	kit.Describe("table-model: case = (safe configuration with the Table extension, a row model: optional paragraph lines, header row with h cells, delimiter row with d alignment cells, body rows with 1..2d cells, cells from inert words / emphasis / code spans / escaped pipes, leading and trailing pipes present or absent, optionally inside a block quote or list item) serialised to Markdown; oracle: a delimiter row with a cell that is not :?-+:? (empty between adjacent pipes, blank, inner space, stray character) => no table at all; h != d => no table at all; h == d => exactly one table, one thead with one tr of h th cells, every body row exactly h td cells, tbody iff there are body rows, every cell that was written in the source carries its column's alignment (per the pinned align method), and the AST has one TableHeader plus one TableRow per body row, each with len(Alignments) cells. table-soup: pipe/dash/colon soup; oracle: every table in the output is rectangular (one thead/tr, n >= 1 th, every body row n td, tbody iff rows) and every Table node has a header and rows of len(Alignments) cells. non-trivial = a table was produced and at least one body row had a cell count different from the header; distinct by hash of the case",
 		"the expected shape comes from the generator's own row model and an independent reading of the GFM delimiter-row rule", "outputs are read with the strict HTML tokenizer; a case it rejects is left to C03")
 	kit.Main(m, "C17")
 }
@@ -180,6 +180,13 @@ func modelOracle(c *kit.Case) error {
 		return err
 	}
 	last = shape{tables: len(tables)}
+	if c.Ints["baddelim"] != 0 {
+		// a delimiter row with a cell that is not :?-+:? (empty, blank, inner space, stray character) is no delimiter row
+		if len(tables) != 0 {
+			return kit.Violf("invalid-delimiter-row-became-table", "a delimiter row with an invalid cell became a table: %q -> %q", src, out)
+		}
+		return checkAST(cfg.MD().Parser().Parse(text.NewReader(src)))
+	}
 	if h != d {
 		if len(tables) != 0 {
 			return kit.Violf("mismatched-header-became-table", "header with %d cells and delimiter row with %d cells became a table: %q -> %q", h, d, src, out)
@@ -368,7 +375,22 @@ func TestTableModel(t *testing.T) {
 		for _, a := range aligns {
 			dc = append(dc, delimCell(t, a))
 		}
-		lines = append(lines, writeRow(t, dc, d == 1))
+		bad := int64(0)
+		if rapid.IntRange(0, 7).Draw(t, "baddelim") == 0 {
+			// near-miss delimiter rows: one cell that GFM does not accept (written with outer pipes so that the
+			// line cannot be a list item or a thematic break)
+			bad = 1
+			inv := rapid.SampledFrom([]string{"", "", " ", "- -", ":", "::", "-a", "a", "--:-", "=", "-:-", "- :"}).Draw(t, "badcell")
+			pos := rapid.IntRange(0, len(dc)).Draw(t, "badpos")
+			if rapid.Bool().Draw(t, "badreplace") && len(dc) > 1 && pos < len(dc) {
+				dc[pos] = inv
+			} else {
+				dc = append(dc[:pos], append([]string{inv}, dc[pos:]...)...)
+			}
+			lines = append(lines, writeRow(t, dc, true))
+		} else {
+			lines = append(lines, writeRow(t, dc, d == 1))
+		}
 		nr := rapid.IntRange(0, 5).Draw(t, "nrows")
 		var rowCells []string
 		for r := 0; r < nr; r++ {
@@ -399,6 +421,10 @@ func TestTableModel(t *testing.T) {
 			body = body + "\nafter\n"
 		}
 		c := kit.NewCase("table-model", cfg.String()).B("src", []byte(body)).I("h", int64(h)).S("aligns", strings.Join(aligns, ",")).S("rows", strings.Join(rowCells, ","))
+		if bad != 0 {
+			c.I("baddelim", bad)
+			kit.R.Class("invalid-delimiter-row")
+		}
 		last = shape{}
 		if kit.Check(t, c) {
 			kit.R.Class("model-documents")
